@@ -22,6 +22,9 @@ structure Flight where
   id : Nat
   /-- `acks` local of `publish()`: `None` when nothing was pending -/
   taken : Option (List Ack)
+  /-- the future lives in the `FuturesUnordered` of `SubscriptionEventLoop` (otherwise the harness
+  awaits it directly) -/
+  viaLoop : Bool := false
 deriving Repr, DecidableEq
 
 structure State where
@@ -34,6 +37,8 @@ structure State where
   nextId : Nat
   /-- `AsyncSecureChannel::request_send` is `Some` -/
   connected : Bool
+  /-- `max_inflight_publish` of the subscription event loop -/
+  maxPublish : Nat := 2
 deriving Repr, DecidableEq
 
 def init : State := { pending := [], subs := [], flights := [], nextId := 0, connected := true }
@@ -87,12 +92,14 @@ deriving Repr, DecidableEq
 
 /-- first half of `publish()`.  When the channel is not connected `channel.send` fails at once
 (`BadNotConnected`) and the taken acknowledgements are re-queued by the same call. -/
-def start (s : State) : Out × State :=
+def startWith (viaLoop : Bool) (s : State) : Out × State :=
   let (taken, s1) := takeAcks s
   if s.connected then
-    (.sent s.nextId taken, { s1 with flights := s1.flights ++ [⟨s.nextId, taken⟩], nextId := s.nextId + 1 })
+    (.sent s.nextId taken, { s1 with flights := s1.flights ++ [⟨s.nextId, taken, viaLoop⟩], nextId := s.nextId + 1 })
   else
     (.retErr BadNotConnected, requeue s1 taken)
+
+def start := startWith false
 
 def findFlight : List Flight → Nat → Option Flight
   | [], _ => none
@@ -157,5 +164,62 @@ def stepWith (src : Src) (s : State) : Op → Out × State
   | .delSub id => (.unit, { s with subs := s.subs.filter (· != id) })
 
 def step := stepWith .fixed
+
+/-! ### `SubscriptionEventLoop::run` (client/session/services/subscriptions/event_loop.rs)
+
+The loop owns the publish futures.  It publishes on an external trigger (always), when a response
+says `more_notifications` (always), and again after a `BadTimeout` (when fewer than
+`max_inflight_publish` futures remain); every other failure is only reported.  Publishing on the
+periodic tick and the `is_waiting_for_response` flag, which only gates the tick, are not modelled.
+Each op below is one external stimulus followed by polling the stream until it is pending. -/
+
+def BadTooManyPublishRequests : Nat := 0x80780000
+
+/-- what the stream / the transport shows, in order -/
+inductive Ev where
+  /-- a publish future handed its request to the transport -/
+  | sent (id : Nat) (acks : Option (List Ack))
+  /-- the stream yielded `SubscriptionActivity::Publish` -/
+  | publish
+  /-- the stream yielded `SubscriptionActivity::PublishFailed(status)` -/
+  | failed (status : Nat)
+deriving Repr, DecidableEq
+
+/-- `futures.push(static_publish())` followed by the next poll of the stream: the new future either
+hands its request over or (channel not connected) fails at once, which the loop reports -/
+def loopStart (s : State) : List Ev × State :=
+  match startWith true s with
+  | (.sent id acks, s') => ([.sent id acks], s')
+  | (.retErr e, s') => ([.failed e], s')
+  | (_, s') => ([], s')
+
+def loopTrigger (s : State) : List Ev × State := loopStart s
+
+def findLoopFlight (s : State) (id : Nat) : Option Flight :=
+  match findFlight s.flights id with
+  | some f => if f.viaLoop then some f else none
+  | none => none
+
+/-- a PublishResponse arrives for a future of the loop -/
+def loopComplete (s : State) (id sub seq : Nat) (more ka : Bool) : Option (List Ev × State) :=
+  match findLoopFlight s id with
+  | none => none
+  | some _ =>
+    let s1 := (complete s id sub seq more ka).2
+    if more then
+      let (evs, s2) := loopStart s1
+      some (.publish :: evs, s2)
+    else some ([.publish], s1)
+
+/-- a future of the loop fails -/
+def loopFail (s : State) (id : Nat) (k : FailKind) : Option (List Ev × State) :=
+  match findLoopFlight s id with
+  | none => none
+  | some _ =>
+    let s1 := (fail s id k).2
+    if k.status = BadTimeout ∧ s1.flights.length < s1.maxPublish then
+      let (evs, s2) := loopStart s1
+      some (.failed k.status :: evs, s2)
+    else some ([.failed k.status], s1)
 
 end OpcuaVerif.C36
